@@ -13,6 +13,7 @@ WHAT = ("retry helpers: fx.DoWithRetry/DoWithRetryCtx (attempt count, stop at fi
 QUICK = False
 FAM = "retry"
 
+COV = ["-coverage", "1"]      # the evidence lists actions never taken (none: no dead action)
 PKG_FX = "core/fx"
 DRV_FX = ["zz_verif_ext_fxretry_test.go"]
 
@@ -43,7 +44,7 @@ def _plans(beh):
 
 def _retry(run):
     # design level: retry.go's loop/select/goroutines (Layer I) against the observable law (Layer P)
-    run.model_check(FAM, "RetryImpl", "RetryImplMC.cfg", workers=4,
+    run.model_check(FAM, "RetryImpl", "RetryImplMC.cfg", workers=4, args=COV,
                     note="retry.go loop+select+attempt goroutines+environment: Refines Layer P, NoLeak; 405 option sets")
     run.model_check(FAM, "RetryImpl", "RetryImplLive.cfg", workers=4,
                     note="fairness: the call returns unless fn hangs; returns once the context has ended")
@@ -55,7 +56,7 @@ def _retry(run):
                     note="unbuffered errChan: abandoned attempt blocked for ever (NoLeak)")
     run.model_check(FAM, "RetryImpl", "RetryImplBugExtra.cfg", workers=2, expect="violation",
                     note="i <= times: one attempt too many")
-    run.model_check(FAM, "RetryGen", "RetryMC.cfg", workers=4,
+    run.model_check(FAM, "RetryGen", "RetryMC.cfg", workers=4, args=COV,
                     note="Layer P alone: its predicates hold in every state (times up to 4)")
     # spec -> code
     beh = run.generate(FAM, "RetryGen", "RetryGen.cfg", workers=1)
@@ -78,7 +79,7 @@ DRV = ["zz_verif_ext_fxretry_test.go"]
 
 
 def _batch(run):
-    run.model_check(FAM, "BatchErrImpl", "BatchErrImplMC.cfg", workers=4,
+    run.model_check(FAM, "BatchErrImpl", "BatchErrImplMC.cfg", workers=4, args=COV,
                     note="batcherror.go (slice + RWMutex, append = read then write) refines BatchErr, 3 goroutines")
     run.model_check(FAM, "BatchErrImpl", "BatchErrImplBugNoLock.cfg", workers=2, expect="violation",
                     note="Add without the lock: lost update")
@@ -106,7 +107,7 @@ KF_CAUSE = {
 
 
 def _ctx(run):
-    run.model_check(FAM, "ValueCtxGen", "ValueCtxMC.cfg", workers=4,
+    run.model_check(FAM, "ValueCtxGen", "ValueCtxMC.cfg", workers=4, args=COV,
                     note="every tree of 4 contexts x 2 cancels: Detached, ValuesKept, scope cut (EndedForAReason), ...")
     run.model_check(FAM, "ValueCtxGen", "ValueCtxBugDone.cfg", workers=2, expect="violation",
                     note="ValueOnlyFrom delegating Done/Err")
